@@ -832,6 +832,44 @@ def driveHS (args : List String) : String :=
     HSX.runScript (argVal cs "cs" == "1") (argVal req "req") (if o == "-" then [] else o.splitOn ";")
   | _ => "bad-op"
 
+/-! ### HTTP unary scripts (deterministic): `HttpUnary.serve` then `HttpUnary.client`. -/
+namespace HUX
+open HttpUnary
+
+def parseOp (op : String) : Option HOp :=
+  match op.splitOn ":" with
+  | ["sethdr", n] => n.toNat?.map .setHeader
+  | ["sendhdr", n] => n.toNat?.map .sendHeader
+  | ["settlr", n] => n.toNat?.map .setTrailer
+  | _ => none
+
+def parseRet (a : String) : Option Ret :=
+  match a.splitOn ":" with
+  | ["resp", n, e] => n.toNat?.map fun k => .resp k (e == "1")
+  | "err" :: rest => match HSX.parseErr (":".intercalate rest) with
+    | some (some e) => some (.err e)
+    | _ => none
+  | _ => none
+
+/-- ids in call order (each script uses every id once, in increasing order) -/
+def showIds (xs : List Nat) : String := "+".intercalate ((HSX.sortNats xs).map toString)
+
+def runScript (ops : List String) (ret : String) : String :=
+  match ops.mapM parseOp, parseRet ret with
+  | some os, some r =>
+    let (reply, rs) := serve os r false
+    let seen := client reply
+    s!"res={HSX.dash (",".intercalate (rs.map HSX.showR))} client={HSX.showR seen.result} hdr={HSX.dash (showIds seen.hdr)} tlr={HSX.dash (showIds seen.tlr)}"
+  | _, _ => "bad-op"
+end HUX
+
+def driveHU (args : List String) : String :=
+  match args with
+  | [ops, ret] =>
+    let o := argVal ops "ops"
+    HUX.runScript (if o == "-" then [] else o.splitOn ";") (argVal ret "ret")
+  | _ => "bad-op"
+
 def dispatch (line : String) : String :=
   match (line.splitOn " ").filter (· ≠ "") with
   | "C14" :: rest => driveC14 rest
@@ -849,6 +887,7 @@ def dispatch (line : String) : String :=
   | "IS" :: rest => driveIS rest
   | "HC" :: rest => driveHC rest
   | "HS" :: rest => driveHS rest
+  | "HU" :: rest => driveHU rest
   | "C03" :: rest => driveC03 rest
   | "IU" :: rest => driveIU rest
   | _ => "bad-op"
